@@ -75,7 +75,7 @@ def build_run_from_paths(rid, scanned, cfg, events, bad):
     inos, atoms = {}, {}          # one name space of atoms for all windows: equal atom <=> equal byte string
     for p, root in scanned:
         st = os.stat(p)
-        if not stat.S_ISREG(st.st_mode) or st.st_size < 1:
+        if not stat.S_ISREG(st.st_mode) or st.st_size < cfg.get("min_size", 1) or st.st_size > cfg.get("max_size", 1 << 62):
             continue
         with open(p, "rb") as fh:
             data = fh.read()
